@@ -117,8 +117,9 @@ def run(ctx):
     icfg = ctx.cfg(inval)
     written = {}
     for n in icfg.live_nodes():
-        if n.kind == "stmt" and isinstance(n.ast, ast.Assign):
-            for t in n.ast.targets:
+        if n.kind == "stmt" and isinstance(n.ast, (ast.Assign, ast.AugAssign)):
+            # (an augmented assignment is how a generation counter moves on: C10.STALE)
+            for t in (n.ast.targets if isinstance(n.ast, ast.Assign) else [n.ast.target]):
                 if isinstance(t, ast.Attribute) and isinstance(t.value, ast.Name) and t.value.id == "self":
                     written[t.attr] = n
     calls_inval = any(isinstance(x, ast.Call) and src(x.func) == "self._invalidate_cache" for x in walk_local(binit.node))
@@ -315,6 +316,13 @@ def run(ctx):
 
     # ---------------------------------------------------------------- C10.LEN
     check_len_published(ctx, "C10.LEN")
+
+    # ---------------------------------------------------------------- C10.STALE
+    # "adding a rule or date after the set has been partially ... iterated is reflected in every later iteration and
+    # query": an iterator that was started before the addition and is resumed after it must not publish its (old)
+    # length or mark the (new) cache complete.
+    from ..rules_common import check_stale_publication
+    check_stale_publication(ctx, "C10.STALE")
 
     # ---------------------------------------------------------------- C10.ARGS
     from ..rules_common import check_call_arguments
